@@ -1031,9 +1031,13 @@ func c12(c *core.Ctx, r *core.Report) {
 				}
 			}
 		}
-		// … or the draw is made in a helper: the maker is then the one that is handed the random source
-		for _, mp := range maker.Params {
-			if sig, ok := mp.Type().Underlying().(*types.Signature); ok && sig.Params().Len() == 1 && sig.Results().Len() == 1 && isIntType(sig.Params().At(0).Type()) && isIntType(sig.Results().At(0).Type()) {
+		// … or the draw is made in a helper the closure hands its captured random source to
+		for _, fv := range fn.FreeVars {
+			ft := fv.Type()
+			if p, isPtr := ft.Underlying().(*types.Pointer); isPtr {
+				ft = p.Elem()
+			}
+			if sig, ok := ft.Underlying().(*types.Signature); ok && sig.Params().Len() == 1 && sig.Results().Len() == 1 && isIntType(sig.Params().At(0).Type()) && isIntType(sig.Results().At(0).Type()) {
 				kind = "withRandomDistribution"
 			}
 		}
